@@ -174,6 +174,16 @@ pub fn gen(cfg: &Cfg) -> Vec<String> {
         ops.push(format!("tag.try {}", hex(format!("{v}!").as_bytes())));
         ops.push(format!("tag.try {}", hex(format!("{v} x").as_bytes())));
     }
+    // names that merely BEGIN with (or are one letter short of) a known name: a lookup that truncates,
+    // compares a prefix or a fixed-size buffer would take them for the known one
+    for n in MPD_TAG_NAMES.iter().take(35) {
+        for v in [format!("{n}s"), format!("{n}_x"), format!("{n}{n}"), n[..n.len() - 1].to_string()] {
+            for w in [v.clone(), v.to_ascii_lowercase(), v.to_ascii_uppercase()] {
+                ops.push(format!("tag.try {}", hex(w.as_bytes())));
+                specs.push(format!("T{}", hex(w.as_bytes())));
+            }
+        }
+    }
     // words that are keywords elsewhere in the protocol, in every case variant
     for n in ["any", "file", "base", "modified-since", "added-since", "AudioFormat", "prio", "window", "sort", "group", "Last-Modified", "Time", "duration", "Format", "Range", "Pos", "Id"] {
         for v in case_variants(&mut r, n) {
